@@ -53,6 +53,11 @@ type Case struct {
 	Sizes     []int   `json:"sizes"` // payload size of message seq is Sizes[seq % len]
 	Handlers  []HSpec `json:"handlers"`
 	Yield     int     `json:"yield"`
+	// Churn: while the messages arrive, a goroutine keeps registering a handler
+	// which selects everything, removing it, registering one which selects
+	// nothing in its place and removing that one (a slot ahead of the others'):
+	// the second one never receives anything
+	Churn bool `json:"churn,omitempty"`
 	// ArrivalLast: the handler which records the arrival order is registered
 	// behind the others instead of ahead of them
 	ArrivalLast bool `json:"arrival_last,omitempty"`
@@ -91,10 +96,11 @@ func genCase(t *rapid.T) Case {
 	for i := 0; i < n; i++ {
 		c.Sizes = append(c.Sizes, rapid.SampledFrom(sizes).Draw(t, "size"))
 	}
+	c.Churn = rapid.IntRange(0, 3).Draw(t, "churn") == 0
 	k := rapid.IntRange(1, 5).Draw(t, "handlers")
 	for i := 0; i < k; i++ {
 		c.Handlers = append(c.Handlers, HSpec{
-			Kind: rapid.SampledFrom([]string{"all", "none", "parity", "action", "once", "all", "parity", "action", "stuck", "take", "sample", "consumer"}).Draw(t, "hkind"),
+			Kind: rapid.SampledFrom([]string{"all", "none", "parity", "action", "once", "all", "parity", "action", "stuck", "take", "sample", "consumer", "slowall"}).Draw(t, "hkind"),
 			Arg:  uint32(rapid.IntRange(0, 6).Draw(t, "harg")),
 		})
 	}
@@ -127,6 +133,11 @@ func (h HSpec) filter() qnet.Filter {
 		}
 		switch h.Kind {
 		case "all", "stuck", "consumer":
+			return true, true
+		case "slowall": // a filter which takes its time
+			for i := 0; i < 4; i++ {
+				runtime.Gosched()
+			}
 			return true, true
 		case "none":
 			return false, true
@@ -359,7 +370,43 @@ func checkCase(c Case) error {
 	arrival := make(chan *qnet.Message, total+8)
 	var arrivalClosed int32
 	rxs := make([]*rx, len(c.Handlers))
+	var intruded int32
+	stopChurn := make(chan struct{})
+	var churnWG sync.WaitGroup
+	var stopOnce sync.Once
+	endChurn := func() { stopOnce.Do(func() { close(stopChurn) }) }
+	defer endChurn()
 	register := func(e qnet.EndPoint) {
+		if c.Churn {
+			// a placeholder takes a slot ahead of the other handlers'; the churner
+			// frees it and from then on its handlers come and go in that slot
+			placeholder := e.MakeHandler(func(*qnet.Header) (bool, bool) { return false, true }, make(chan *qnet.Message, 1), nil)
+			churnWG.Add(1)
+			defer func() {
+				go func() {
+					defer churnWG.Done()
+					e.RemoveHandler(placeholder)
+					for {
+						select {
+						case <-stopChurn:
+							return
+						default:
+						}
+						q1 := make(chan *qnet.Message, total+8)
+						id1 := e.MakeHandler(func(*qnet.Header) (bool, bool) { return true, true }, q1, nil)
+						e.RemoveHandler(id1)
+						q2 := make(chan *qnet.Message, total+8)
+						id2 := e.MakeHandler(func(*qnet.Header) (bool, bool) { return false, true }, q2, nil)
+						e.RemoveHandler(id2)
+						for len(q2) > 0 {
+							if m, ok := <-q2; ok && m != nil {
+								atomic.AddInt32(&intruded, 1)
+							}
+						}
+					}
+				}()
+			}()
+		}
 		observe := func() {
 			e.MakeHandler(func(hdr *qnet.Header) (bool, bool) { return true, true }, arrival, func(error) { atomic.StoreInt32(&arrivalClosed, 1) })
 		}
@@ -506,6 +553,14 @@ collect:
 	}
 	if len(order) != total {
 		return vt.Violationf("C10:lost:"+c.Transport, "%d of %d messages arrived", len(order), total)
+	}
+	if c.Churn {
+		endChurn()
+		churnWG.Wait()
+		if n := atomic.LoadInt32(&intruded); n > 0 {
+			return vt.Violationf("C10:handler-selection:"+c.Transport, "a handler whose filter selects nothing, registered while messages arrived in the place of one which selected everything, received %d messages", n)
+		}
+		vt.Label("handlers-come-and-go-during-arrival")
 	}
 	// each handler: exactly the subsequence its filter selects, in arrival order
 	for i, r := range rxs {
